@@ -62,6 +62,7 @@ type opSpec struct {
 	Delta   int64  `json:"d,omitempty"`
 	DelayUs int    `json:"w"`
 	Refresh bool   `json:"r,omitempty"` // re-read the leader from the control endpoints before this op
+	Probe   bool   `json:"p,omitempty"` // SET only: read the key back on the same connection right after the reply
 }
 
 type nemStep struct {
@@ -112,10 +113,18 @@ func drawPlan(t *rapid.T) plan {
 	if e := os.Getenv("C04_ENGINE"); e != "" {
 		p.Opts.Engine = e
 	}
-	// 3-5 keys of distinct types
+	// 3-5 keys of distinct types. The SET/GETSET register is always one of them: SET is the
+	// only command of the set whose reply is produced through the apply batch, and its key
+	// is the one the same-connection visibility rule is checked on.
 	nk := rapid.IntRange(3, 5).Draw(t, "nkeys")
-	types := append([]keyType{}, allTypes...)
-	for i := 0; i < nk; i++ {
+	types := []keyType{ktSreg}
+	for _, ty := range allTypes {
+		if ty != ktSreg {
+			types = append(types, ty)
+		}
+	}
+	p.Keys = append(p.Keys, keySpec{Name: string(ktSreg), Type: ktSreg})
+	for i := 1; i < nk; i++ {
 		j := rapid.IntRange(i, len(types)-1).Draw(t, "keytype")
 		types[i], types[j] = types[j], types[i]
 		p.Keys = append(p.Keys, keySpec{Name: string(types[i]), Type: types[i]})
@@ -166,7 +175,10 @@ func drawPlan(t *rapid.T) plan {
 			case "hsetnx":
 				o.Field = "s" + strconv.Itoa(rapid.IntRange(0, 3).Draw(t, "field"))
 				o.Arg = "<" + tok + ">"
-			case "set", "getset", "setnx", "append":
+			case "set":
+				o.Arg = "<" + tok + ">"
+				o.Probe = rapid.IntRange(0, 1).Draw(t, "probe") == 0
+			case "getset", "setnx", "append":
 				o.Arg = "<" + tok + ">"
 			case "lpush":
 				o.Arg = "e" + tok
@@ -191,7 +203,7 @@ func drawPlan(t *rapid.T) plan {
 			Kind: pickWeighted(t, "nemesis", []string{"kill_leader", "kill_random", "term_random", "restart", "transfer", "pause_leader", "pause_random"},
 				[]int{4, 2, 1, 3, 3, 3, 1}),
 			Pick:    rapid.IntRange(0, 1<<20).Draw(t, "pick"),
-			DelayMs: rapid.IntRange(200, 1500).Draw(t, "nem_delay"),
+			DelayMs: rapid.IntRange(100, 1500).Draw(t, "nem_delay"),
 			DurMs:   rapid.IntRange(300, 3500).Draw(t, "nem_dur"),
 		})
 	}
@@ -420,6 +432,24 @@ func (r *runner) client(ci int, out *[]opRec, wg *sync.WaitGroup) {
 			o.Reply = &rp
 		}
 		*out = append(*out, o)
+		if o.Outcome == "ok" && spec.Probe {
+			// read-back on the same connection, as fast as a client can
+			pr := opRec{Client: ci, Conn: connSerial, Key: k.Name, Kind: "read", Node: target}
+			pr.Invoke = r.now()
+			reply, err := conn.do([]string{"get", fullKey(k.Name)}, opTimeout)
+			pr.Return = r.now()
+			pr.Outcome = classify(reply, err)
+			if err != nil {
+				pr.Err = err.Error()
+			} else {
+				rp := reply
+				pr.Reply = &rp
+			}
+			*out = append(*out, pr)
+			if pr.Outcome != "ok" {
+				o.Outcome = pr.Outcome // only for the retarget decision below
+			}
+		}
 		if o.Outcome != "ok" {
 			retarget()
 			time.Sleep(30 * time.Millisecond)
@@ -484,6 +514,9 @@ func (r *runner) nemesis() {
 		needsVictim := kind == "kill_leader" || kind == "kill_random" || kind == "term_random" || kind == "pause_leader" || kind == "pause_random"
 		if needsVictim && unavailable >= maxUnavail {
 			kind = "restart"
+		}
+		if kind == "restart" && len(r.nodesIn(stDown, stTerming)) == 0 {
+			kind = "transfer" // nothing to restart
 		}
 		switch kind {
 		case "restart":
@@ -766,7 +799,6 @@ func runHistory(t *rapid.T, outer *testing.T) {
 		cwg.Add(1)
 		go r.client(ci, &recs[ci], &cwg)
 	}
-	time.Sleep(500 * time.Millisecond) // some fault-free traffic first
 	r.nemesis()
 	// tail: everything is (being) restarted; let the clients get acknowledged writes again
 	tailDeadline := time.Now().Add(20 * time.Second)
